@@ -113,6 +113,14 @@ class Check(PropertyCheck):
         #  everything pending)
         if wound and not finished_after_take:
             fails.append(f"replay of flow {pending_take} ended with neither response nor error")
+        # "queued flows are replayed one at a time in queue order … and every replayed flow ends with a response or an error":
+        # once the server has answered / refused / closed everything pending (fairness hypothesis of the Lean theorem
+        # every_replay_completes), nothing may be left queued or in flight
+        if wound:
+            last = [r for r in tr if r[0] == "state"][-1]
+            if last[1] or last[2] != -1:
+                fails.append(f"after the server answered or refused everything pending, flows {last[1]} are still queued and "
+                             f"flow {last[2]} is still in flight: the playback loop is stuck")
         return fails
 
     def known(self, case, obs, failure):
